@@ -144,6 +144,29 @@ CLAIMS["C14"] = dict(
     technique="Coq proof (History.history_independent, abstract non-interference) + history exploration against fresh processes (U10)",
     design="6/C14")
 
+CLAIMS["C17"] = dict(
+    text="Theorem over per-person records (priority flags of the person's bg, household pensioner indicators, wthh = hh*100 + flag, `any` "
+         "aggregates over the part-household, the three final rules in closed form): ALG II > 0 => Wohngeld = 0 and Kinderzuschlag = 0; "
+         "Wohngeld > 0 => ALG II = 0; all-pensioner households get none of the three; bg members share a part-household; Kinderzuschlag > 0 "
+         "=> a priority check says the need is covered. Obligations regenerated every run: the regenerated ASTs of the three final rules, "
+         "the three flag rules and erwachsene_alle_rentner_hh EQUAL the closed forms for all argument values (symbolic evaluation); "
+         "grunds_im_alter_m_eg is 0 unless all adults are pensioners; the *_wthh flags are `any` aggregates over wthh_id in every dumped "
+         "graph. Engine sweeps across the break-even points check every person.",
+    technique="Coq proof (Priority.v) + symbolic equality of regenerated rule ASTs with closed forms + reflective graph check + engine sweeps",
+    design="6/C17")
+
+CLAIMS["C19"] = dict(
+    text="PARTIAL. Theorems for ALL wages and ALL parameters satisfying cond (closed forms over exact rationals): employee contribution "
+         "non-negative, non-decreasing, zero up to the marginal threshold, constant above the ceiling; the reduced transition-zone base "
+         "meets the regular one at the upper boundary (both regimes); residual shares sum to the total; old-regime residual monotone. "
+         "Obligations regenerated every run for every date class >= 2015, pension and unemployment, east and west: the parameters read "
+         "off the model environment satisfy cond, and the model's scalar evaluation of the REAL rule chain (regenerated ASTs + real "
+         "loader graph + statutory rounding) equals the closed form on a stated wage grid (all boundaries +-1 cent + lattice) — a "
+         "bounded tie, not for all wages. Health and care insurance: engine sweeps only. Engine sweeps check the shape on the real code "
+         "for all four branches and compare the model chain with the implementation.",
+    technique="Coq proof (Contrib.v closed forms) + vm_compute grid agreement of the regenerated rule chain (Scalar.seval) + engine wage sweeps",
+    design="6/C19")
+
 CLAIMS["C20"] = dict(
     text="Theorems on the model of the input checks and of the coercion: accepted data have unique p_ids, valid non-self pointers, "
          "group-constant group-level inputs and no duplicate column names (each fault class => rejection); a successful conversion never "
